@@ -5,8 +5,14 @@ _NOTE = ("trusted base: the reference model in vp/oracle.py (dense Kronecker mat
 _T = "runtime monitoring: "
 
 
+_COMMON = (" Cross-cutting shards added while validating against 140+ deliberately broken variants (DESIGN.md section 8): registers "
+           "of 31..130 qubits and lists up to 70001 rows around machine-word / block thresholds (table / GF(2) / group oracles), random "
+           "legal memory layouts of every array handed to the library, unusual-but-legal argument types, histories on one live "
+           "object with re-observation of earlier results and arguments, both numba execution modes (JIT with bounds checking, interpreted).")
+
+
 def _c(text, technique, note=_NOTE):
-    return {"text": text, "technique": _T + technique, "note": note}
+    return {"text": text + _COMMON, "technique": _T + technique, "note": note}
 
 
 CLAIMS = {
